@@ -114,6 +114,8 @@ def verify_many(repo_root, targets, jobs=16, timeout_ms=10000, both=False):
         init(repo_root)
         return [verify_target(t, timeout_ms, both) for t in targets]
     ctxm = mp.get_context("fork")
-    with ctxm.Pool(min(jobs, len(targets)), initializer=_pool_init, initargs=(repo_root,)) as pool:
+    # one fresh process per target (maxtasksperchild=1): z3's context and the engine's definition caches are process-global,
+    # so a verdict must never depend on which targets happened to run earlier in the same worker
+    with ctxm.Pool(min(jobs, len(targets)), initializer=_pool_init, initargs=(repo_root,), maxtasksperchild=1) as pool:
         res = [pool.apply_async(verify_target, (t, timeout_ms, both)) for t in targets]
         return [r.get() for r in res]
